@@ -1,0 +1,18 @@
+//go:build verif
+// +build verif
+
+package store
+
+// VerifSetMaxCandidateCount replaces the size limit of the published
+// top-candidate list (unexported package variable max_candidate_count,
+// 20 in production) and returns the previous value, so that "more
+// candidates than list slots" is reachable with a handful of accounts
+// (C10 harness). Callers restore the old value when done.
+func VerifSetMaxCandidateCount(n int) int {
+	old := max_candidate_count
+	max_candidate_count = n
+	return old
+}
+
+// VerifMaxCandidateCount reads the current limit.
+func VerifMaxCandidateCount() int { return max_candidate_count }
